@@ -306,8 +306,10 @@ def applyText (e : Enc) (us : List Nat) : PatchAction → HOut (List Nat)
     | .err er => .err er
     | .panic p => .panic p
   | .deleteSeq i n => seqRemoveN us i n
-  -- hydrated text holds no marks: accepted, nothing changes
+  -- hydrated text holds no marks, no conflict flags and no counter values: accepted, nothing changes
   | .mark => .ok us
+  | .conflict _ => .ok us
+  | .increment _ _ => .ok us
   | _ => .err .textOp
 
 /-- `hydrate::Value::apply`: walk the path, then apply at the addressed container -/
